@@ -4,14 +4,15 @@ META = {
     "category": "proof",
     "text": "Lean 4 theorems over a session machine (Model/Session.lean: disk, view cache with for-update marks, created/updated sets, temporary tables with restore points, commits by other processes): abort_restores - from the most recent commit point, after ANY statements of the transaction, an ending by error / EXIT / interrupt / ROLLBACK leaves every table file exactly as at that commit point, created files absent, temporary tables at their restore point; normal_end_publishes - COMMIT / normal end writes exactly the view the transaction last saw for every created or changed table and nothing else; untouched_identical - files never created or changed stay identical through any statements, commits and rollbacks. Tied to /repo by a differential correspondence: random histories executed statement by statement through the real Processor (SELECT result and bytes on disk compared after every statement, other-process commits injected when no lock is held), the statements include multi-table DELETE, two-table SELECT … FOR UPDATE, part-way failing UPDATE, ALTER TABLE … SET LINE_BREAK (the attribute is part of the compared table state), every table named in several spellings (relative, ./, absolute, absolute with // or /./, without extension); the lock files the transaction holds are part of the compared state; law untouched_file_rewritten (inode of each file vs csvq's own change log); and the same programs as real csvq processes ended normally / by error / EXIT / signal (at the first file access, at the k-th encode of the final COMMIT, during the last statement)",
     "design_ref": "DESIGN.md section 5, C01 and C20",
-    "note": "trusted: Lean kernel; harness + driver; the model treats a DML statement as 'replace the cached table by f(old) or fail' (C05/C08 decide what f is and that failure changes nothing); the commit itself is C10's regenerated sequence; the ending->AutoCommit/AutoRollback dispatch of Processor.Execute and cli/app.go is covered by the process-level runs",
+    "note": "trusted: Lean kernel; harness + driver; the model treats a DML statement as 'replace the cached table by f(old) or fail' (C05/C08 decide what f is and that failure changes nothing); the commit itself is C10's regenerated sequence; the ending->COMMIT/ROLLBACK dispatch is REGENERATED from lib/query/processor.go and lib/action/run.go on every run (extract/procfacts -> Gen/ProcFacts: the statement loop of Processor.execute and the auto-commit condition of Processor.Execute translated into Lean; Props/C01Proc: frame_end_eq_finish - auto-commit under the translated condition followed by the deferred AutoRollback of cli/app.go IS Session.finish of the ending, execute_loop_first_stop - nothing after the first error / EXIT is executed) and also covered by the process-level runs",
     "technique": "Lean 4 machine-checked proof (invariant relating the running state to the last commit point, induction over statement lists) + differential correspondence in-process and at process level",
 }
 
 
 def run(run):
     q = run.tier == "quick"
-    run.obligations_for(["Csvq.Props.C01"])
+    run.regen("procfacts", ["go", "run", "-C", "extract/procfacts", "."], "Csvq/Gen/ProcFacts.lean")
+    run.obligations_for(["Csvq.Props.C01", "Csvq.Props.C01Proc"])
     csvq = run.build_csvq()
     env = {"VERIF_CSVQ": str(csvq)} if csvq else {}
     run.stream("c01", 400 if q else 4000, env=env, timeout=3000)
